@@ -222,14 +222,16 @@ PROPERTIES = {
     },
     "C03": {
         "runs": {
-            "quick": [H("HarnessC03a", b(N=3, CACHE=0), sched=True, preempt=1, no_native=True), H("HarnessC03a", b(N=3, CACHE=1), sched=True, preempt=0, no_native=True), H("HarnessC03b", b(N=3))],
+            "quick": [H("HarnessC03a", b(N=3, CACHE=0), sched=True, preempt=1, no_native=True), H("HarnessC03a", b(N=3, CACHE=1), sched=True, preempt=0, no_native=True), H("HarnessC03b", b(N=3))] +
+                     # directed: 65 dirty nodes (> the 40-slot gate), one failing Store chosen symbolically, three deterministic schedules
+                     [H("HarnessC03a", b(N=65, CACHE=0, LRULER=1, CONCRETEKEYS=1, Lmax=6), policy=pol, no_native=True, conc_bound=128, max_steps=100000000) for pol in ("first", "rr", "last")],
             "thorough": [H("HarnessC03a", b(N=3, CACHE=0), sched=True, preempt=2, no_native=True, sample_every=5000), H("HarnessC03a", b(N=4, CACHE=0), sched=True, preempt=1, no_native=True, sample_every=5000),
                          H("HarnessC03a", b(N=3, CACHE=1), sched=True, preempt=1, no_native=True, sample_every=5000), H("HarnessC03b", b(N=5), sample_every=100)],
         },
         "extra_labels": ["deadlock", "nontermination"],
         "must_reach": ["C03.returned-root-is-complete", "C03.no-write-in-flight-at-return", "C03.store-failure-is-reported", "C03.usable-after-error.iter", "C03.retry-root-is-complete", "C03.second-tree-root-is-complete", "C03.not-skipped-because-cached-for-another-store"],
         "bounds_statement": "MakeRoot of a dirty tree of N ascending entries (<= N+2 nodes, far below the 40-slot gate) on a store whose Store calls yield to the scheduler between start and completion; the Store of the node starting with a chosen key fails (or none); every order of the synchronisation steps of the flushing goroutine, the dispatcher and the workers within the preemption bound; then the tree is read and MakeRoot retried without faults; second configuration: one cache shared by two stores with different prefixes",
-        "outside": ["gate saturation (> 40 dirty nodes)", "more preemptions than the bound", "more than one failing Store"],
+        "outside": ["gate saturation (> 40 dirty nodes) under schedule exploration (covered only by three deterministic schedules on one 65-node tree)", "more preemptions than the bound", "more than one failing Store"],
         "assumptions": COMMON_ASSUMPTIONS + ["scheduler: context switches only at synchronisation operations (channel send/receive/close, mutex lock, WaitGroup wait/done, goroutine start/exit) and at the harness yield inside Persist.Store; context-bounded: at most `preempt` switches away from a goroutine that could have continued",
                                                 "sampled-path native validation is off for the scheduled runs (the native scheduler is not controllable); counterexamples are still replayed natively (the listed defects do not depend on the schedule)"],
     },
